@@ -552,3 +552,71 @@ pub fn w(prop: &str, seed: u64) -> RunDesc {
     d.params = J::obj().set("template", "W expected-provenance for AtomicWeak CAS").set("provenance", prov).set("stamped_content", stamped_content).set("op", which);
     d
 }
+
+/// C: AtomicRc compare_exchange with `expected` snapshots whose internal stamp differs from the
+/// cell's (loaded from another cell that holds the same object, written at another epoch; taken
+/// from an Rc; or the cell is re-stamped between the load and the CAS by tag flips), racing a
+/// concurrent writer.
+pub fn c(prop: &str, seed: u64) -> RunDesc {
+    let mut rng = Rng::new(seed);
+    let mut d = base(&mut rng, prop, "dir-c", seed, 3);
+    d.cfg.lin = 1;
+    if d.cfg.start_epoch % 16 == 0 && rng.chance(0.8) {
+        d.cfg.start_epoch += 1 + rng.below(15);
+    }
+    let prov = rng.below(4);
+    let gap = rng.below(20) as usize; // epochs between the two stores (stamps differ mod 16 unless gap % 16 == 0)
+    let tagged = rng.chance(0.3);
+    let mut v = vec![o(K::New, 0, NONE_SLOT, 1, 0), o(K::New, 4, NONE_SLOT, 2, 0)];
+    if tagged {
+        v.push(o(K::RcTag, 0, 1 + rng.below(3) as u32, 0, 0));
+    }
+    // ROOT[1] <- X early, ROOT[0] <- X `gap` epochs later
+    v.extend([o(K::Pin, 0, 0, 0, 0), o(K::Clone, 0, 1, 0, 0), o(K::Store, ROOT1, 1, 0, 0), o(K::Unpin, 0, 0, 0, 0)]);
+    v.extend(rounds(gap));
+    v.extend([o(K::Pin, 0, 0, 0, 0), o(K::Clone, 0, 1, 0, 0), o(K::Store, ROOT0, 1, 0, 0)]);
+    match prov {
+        0 => v.push(o(K::Load, ROOT0, 0, 0, 0)),
+        1 => v.push(o(K::Load, ROOT1, 0, 0, 0)),
+        2 => v.push(o(K::SnapOf, 0, 0, 0, 0)),
+        _ => {
+            // expected loaded from the cell, then the cell is re-stamped by tag flips
+            v.push(o(K::Load, ROOT0, 0, 0, 0));
+            v.push(o(K::Signal, 1, 0, 0, 0));
+            v.push(o(K::Await, 2, 0, 0, 0));
+        }
+    }
+    let which = rng.below(3);
+    let attempts = 1 + rng.below(3);
+    for _ in 0..attempts {
+        match which {
+            0 => v.push(o(K::Cas, ROOT0, 0, 4, 0)),
+            1 => v.push(o(K::Cas, ROOT0, 0, 4, 1)),
+            _ => v.push(o(K::CasTag, ROOT0, 0, rng.below(4) as u32, 0)),
+        }
+    }
+    v.extend([o(K::Load, ROOT0, 0, 2, 0), o(K::Unpin, 0, 0, 0, 0)]);
+    d.threads.push(thread(0, "actor", v));
+    if prov == 3 {
+        // re-stamper: flips the tag there and back in later epochs
+        let mut c = vec![o(K::Await, 1, 0, 0, 0)];
+        for _ in 0..1 + rng.below(2) {
+            c.extend([o(K::Pin, 0, 0, 0, 0), o(K::Load, ROOT0, 0, 0, 0), o(K::CasTag, ROOT0, 0, 1, 0), o(K::CasTag, ROOT0, 0, 0, 0), o(K::Unpin, 0, 0, 0, 0)]);
+        }
+        c.push(o(K::Signal, 2, 0, 0, 0));
+        d.threads.push(thread(0, "re-stamper", c));
+    } else if rng.chance(0.6) {
+        let mut c = rounds(rng.below(3) as usize);
+        c.extend([o(K::New, 0, NONE_SLOT, 3, 0), o(K::Pin, 0, 0, 0, 0)]);
+        for _ in 0..2 + rng.below(5) {
+            c.push(o(K::Swap, ROOT0, 0, 0, 0));
+        }
+        c.push(o(K::Unpin, 0, 0, 0, 0));
+        d.threads.push(thread(0, "flipper", c));
+    }
+    if rng.chance(0.3) {
+        d.threads.push(thread(0, "ticker", rounds(1 + rng.below(4) as usize)));
+    }
+    d.params = J::obj().set("template", "C expected-provenance for AtomicRc CAS").set("provenance", prov).set("epoch_gap", gap).set("op", which).set("tagged", tagged);
+    d
+}
